@@ -597,9 +597,10 @@ def reuse_and_sharing(W, rec, rng):
 def world():
     from werkzeug import formparser as FP
     from werkzeug.sansio import multipart as M
+    from werkzeug import wsgi
     from werkzeug.wrappers import Request
 
-    return {"FP": FP, "M": M, "Request": Request}
+    return {"FP": FP, "M": M, "Request": Request, "wsgi": wsgi}
 
 
 def terminated_byte_accounting(W, rec, rng):
@@ -622,13 +623,15 @@ def terminated_byte_accounting(W, rec, rng):
                             body = (b"a=" + b"x" * n)[:n]
                             ct = "application/x-www-form-urlencoded" if use == "form-urlencoded" else "application/octet-stream"
                         st = cls(body, k)
-                        env = {"REQUEST_METHOD": "POST", "wsgi.input": st, "CONTENT_TYPE": ct, "wsgi.url_scheme": "http", "SERVER_NAME": "h", "SERVER_PORT": "80",
+                        # (every other case: a middleware in front has put its own, generous guard around the server's input)
+                        guarded = (mcl + extra + k) % 2 == 1
+                        env = {"REQUEST_METHOD": "POST", "wsgi.input": W["wsgi"].LimitedStream(st, 10**6) if guarded else st, "CONTENT_TYPE": ct, "wsgi.url_scheme": "http", "SERVER_NAME": "h", "SERVER_PORT": "80",
                                "PATH_INFO": "/", "SCRIPT_NAME": "", "QUERY_STRING": "", "wsgi.input_terminated": True}
 
                         class R(Request):
                             max_content_length = mcl
 
-                        case = {"path": "terminated-accounting", "use": use, "body_len": len(body), "max_content_length": mcl, "short": k, "input": cls.__name__}
+                        case = {"path": "terminated-accounting", "use": use, "body_len": len(body), "max_content_length": mcl, "short": k, "input": cls.__name__, "input_already_guarded": guarded}
                         rec.case()
                         rec.nontrivial(("terminated-accounting", use, len(body), mcl, k, cls.__name__))
                         rec.observe("terminated_accounting_cases")
@@ -647,6 +650,40 @@ def terminated_byte_accounting(W, rec, rng):
                         if st.total > mcl:
                             rec.violation("C10/E2-terminated-stream-read-past-max_content_length", f"{st.total} bytes left the server's input, max_content_length {mcl}; {case}", case, monitor="byte-accounting")
                             return
+
+
+def decoder_driven_directly(W, rec, rng):
+    """The sans-io decoder used without the parser around it (an async framework feeding it network pieces): the part
+    limit and the memory limit given to the decoder itself hold for every way of cutting the body."""
+    from werkzeug.exceptions import RequestEntityTooLarge
+    from werkzeug.sansio import multipart as MP
+
+    for nparts, lim in ((4, 3), (50, 3), (3, 3), (2, 3), (1, 0), (12, 11), (11, 11)):
+        body = mkbody([("field" if i % 3 else "file", b"n%d" % i, b"v%d" % i) for i in range(nparts)])
+        for cut in (len(body), 1, 7, 64):
+            rec.case()
+            rec.nontrivial(("decoder-direct", nparts, lim, cut))
+            rec.observe("decoders_driven_directly")
+            dec = MP.MultipartDecoder(BND, max_parts=lim)
+            seen, outcome = 0, "ok"
+            try:
+                for i in range(0, len(body), cut):
+                    dec.receive_data(body[i:i + cut])
+                    while True:
+                        ev = dec.next_event()
+                        if isinstance(ev, (MP.NeedData, MP.Epilogue)):
+                            break
+                        if isinstance(ev, (MP.Field, MP.File)):
+                            seen += 1
+            except RequestEntityTooLarge:
+                outcome = "413"
+            case = {"path": "decoder-direct", "parts": nparts, "max_parts": lim, "piece": cut}
+            if seen > lim or (nparts > lim and outcome != "413"):
+                rec.violation("C10/E1-surplus-parts-accepted", f"MultipartDecoder(max_parts={lim}) handed out {seen} parts of a body of {nparts} ({outcome}); {case}", case, monitor="E1")
+                return
+            if nparts <= lim and outcome == "413":
+                rec.violation("C10/spurious-413-under-generous-limits", f"MultipartDecoder(max_parts={lim}) refused a body of {nparts} parts; {case}", case, monitor="completeness")
+                return
 
 
 def limits_reconfigured_after_reading(W, rec, rng):
@@ -814,6 +851,8 @@ def run(shard, rec, rng):
         contracts.LOG.take()
     if shard["index"] % 4 == 1:
         terminated_byte_accounting(W, rec, rng)
+        decoder_driven_directly(W, rec, rng)
+        contracts.LOG.take()
     if shard["index"] % 4 == 2:
         limits_reconfigured_after_reading(W, rec, rng)
     if shard["index"] % 4 == 3:
